@@ -210,9 +210,13 @@ def real_bank_oracle(ctx):
     n = ctx.scale(24, 400)
     rate = 8000
     banks = []
+    BURSTS = {5: ("si", "gabor", "causal"), 11: ("stft", "gabor", "centered"), 17: ("si", "gabor", "centered"),
+              20: ("si", "gammatone", "causal"), 23: ("si", "tri", "centered")}
     for case_no in range(n):
         kind = r.choice(["gabor", "tri", "fbank", "gammatone"])
         scale = r.choice(["mel", "bark", "linear", "octave"])
+        if case_no in BURSTS:
+            kind, scale = BURSTS[case_no][1], "mel"
         sc_arg = {"mel": "mel", "bark": "bark", "linear": dict(name="linear", low_hz=0.0), "octave": dict(name="octave", low_hz=40.0)}[scale]
         nf = r.choice([3, 5, 8])
         lo, hi = r.choice([(20.0, 3800.0), (100.0, 2000.0), (300.0, 4000.0)])
@@ -241,9 +245,11 @@ def real_bank_oracle(ctx):
         if special and special.startswith("style:"):
             style = special[6:]
         if special and special.startswith("bursts:"):
-            which = special[7:]
-            flags["use_log"] = True
+            which, _, style = BURSTS[case_no]
+            flags.update(use_log=True, include_energy=False)
         shift_ms = r.choice([2.0, 5.0, 10.0])
+        if case_no in BURSTS:
+            shift_ms = 3.0
         case = dict(computer=which, bank=kind, scale=scale, num_filts=nf, low=lo, high=hi, style=style, shift_ms=shift_ms, **flags)
         try:
             if which == "stft":
@@ -273,7 +279,7 @@ def real_bank_oracle(ctx):
         x = np.random.RandomState(r.randrange(1 << 30)).randn(N).astype(fdt)
         x.setflags(write=False)
         if special and special.startswith("bursts:"):
-            N = max(N, 6 * L + 11)
+            N = 8000
             xb = np.zeros(N)
             rs = np.random.RandomState(r.randrange(1 << 30))
             for a0 in (N // 7, (4 * N) // 7):
